@@ -30,7 +30,6 @@ import (
 	"github.com/corazawaf/coraza/v3/internal/corazarules"
 	"github.com/corazawaf/coraza/v3/internal/corazatypes"
 	"github.com/corazawaf/coraza/v3/internal/environment"
-	stringsutil "github.com/corazawaf/coraza/v3/internal/strings"
 	urlutil "github.com/corazawaf/coraza/v3/internal/url"
 	"github.com/corazawaf/coraza/v3/types"
 	"github.com/corazawaf/coraza/v3/types/variables"
@@ -1241,8 +1240,15 @@ func (tx *Transaction) IsResponseBodyProcessable() bool {
 		// we force the response body to be processed because of the ctl:forceResponseBodyVariable
 		return true
 	}
-	ct := tx.variables.responseContentType.Get()
-	return stringsutil.InSlice(ct, tx.WAF.ResponseBodyMimeTypes)
+	// Media types are case-insensitive and the parameters may be set off with blanks
+	// ("Text/Plain ; charset=utf-8"): such a response is still one of the configured type.
+	ct := strings.TrimSpace(tx.variables.responseContentType.Get())
+	for _, mt := range tx.WAF.ResponseBodyMimeTypes {
+		if strings.EqualFold(mt, ct) {
+			return true
+		}
+	}
+	return false
 }
 
 // WriteResponseBody writes bytes from a slice of bytes into the response body,
